@@ -8,9 +8,12 @@
      - every entry of the exception dictionaries names a cell with the chain of
        its message: cells at or above it, the innermost one failing by itself;
        if all the ancestors of the cell are in G, the cell raises from scratch;
-     - a verified formula cell of G evaluates from scratch;
-     - every G-precedent of a verified node is verified, on the stack, or listed
-       under exceptions / not-implemented — and so is every checked output in G. *)
+     - a verified formula cell of G that raises from scratch is listed.
+   Since repair bbbc9be the except branch marks the cell verified and pushes its
+   precedents, so (section FTerm) when no cell is skipped by 'No Orig data?' the
+   stack discipline of Proofs/C12.v (TI, measure mu) holds again: the loop ends
+   with an empty stack within the fuel |outs| + |edges| + 1 and EVERY node the
+   outputs depend on — below cells that raise too — is in [verified]. *)
 From Coq Require Import List Arith Bool Lia ZArith QArith.
 From PV Require Import Lib.Py Model.Graph Model.Fail Model.Validate Model.ValidateFail.
 From PV Require Import Proofs.C01Base Proofs.C01Eval Proofs.C01Inv Proofs.C09Eval Proofs.C12Base Proofs.C12.
@@ -45,9 +48,6 @@ Section FLoop.
   Hypothesis GD : forall n d, n < N -> G n -> In d (deps n) -> G d.
   Hypothesis GS : forall m, m < N -> G m -> fcell m = true ->
     stored m = VNone \/ F m = FVal (stored m).
-  (* no G-cell computes the text of its own formula ('No Orig data?' is not taken) *)
-  Hypothesis TXG : forall n v, n < N -> G n -> fcell n = true -> F n = FVal v ->
-    py_eq v (VStr (ftext n)) = false.
   (* the values of the G-cells are Excel scalars, the tolerance is absent or positive *)
   Hypothesis SCG : forall n v, n < N -> G n -> fcell n = true -> F n = FVal v -> is_scalar v = true.
   Hypothesis TP : tol_pos tol.
@@ -69,49 +69,51 @@ Section FLoop.
     fi_exc : forall n ch, In (n, ch) (fs_exc vs) ->
                n < N /\ chain_ok n ch /\ (ancG n -> is_raise (F n) = true);
     fi_ver : forall n, mem n (fs_verified vs) = true ->
-               n < N /\ (G n -> fcell n = true -> is_raise (F n) = false);
-    fi_closed : forall n d, mem n (fs_verified vs) = true -> In d (deps n) -> G d ->
-                  mem d (fs_verified vs) = true \/ In d (fs_todo vs) \/ listed (fs_exc vs) d;
-    fi_outs : forall o, In o outs -> G o ->
-                mem o (fs_verified vs) = true \/ In o (fs_todo vs) \/ listed (fs_exc vs) o
+               n < N /\ (G n -> fcell n = true -> is_raise (F n) = true -> listed (fs_exc vs) n)
   }.
 
   Lemma listed_app exc n x : listed exc n -> listed (exc ++ [x]) n.
   Proof. intros [ch H]. exists ch. apply in_or_app. auto. Qed.
 
-  (* ---- the except branch *)
+  Lemma pushed_lt vs n rest v' : FI vs -> fs_todo vs = n :: rest ->
+    forall m, In m (push_deps W n v' rest) -> m < N.
+  Proof.
+    intros Fi T m Hm. pose proof (fi_todo _ Fi n ltac:(rewrite T; left; auto)) as Ln.
+    rewrite push_deps_eq, in_app_iff, in_pushed in Hm. destruct Hm as [[Hm _]|Hm].
+    - eapply deps_ltN; eauto.
+    - apply (fi_todo _ Fi). rewrite T. right. auto.
+  Qed.
+
+  (* ---- the except branch (repair bbbc9be: the cell is verified, its precedents pushed) *)
   Lemma FI_fail vs n rest s' r' ch : FI vs -> fs_todo vs = n :: rest -> SJ s' ->
     (forall m, m < N -> G m -> rep_get r' m = None) ->
     chain_ok n ch -> (ancG n -> is_raise (F n) = true) ->
-    FI {| fs_st := s'; fs_todo := rest; fs_verified := fs_verified vs; fs_report := r';
+    FI {| fs_st := s'; fs_todo := push_deps W n (vadd n (fs_verified vs)) rest;
+          fs_verified := vadd n (fs_verified vs); fs_report := r';
           fs_exc := fs_exc vs ++ [(n, ch)]; fs_raised := None |}.
   Proof.
     intros Fi T Sj R CO RA. pose proof (fi_todo _ Fi n ltac:(rewrite T; left; auto)) as Ln.
     split; cbn [fs_st fs_todo fs_verified fs_report fs_exc fs_raised].
     - exact Sj.
     - reflexivity.
-    - intros m Hm. apply (fi_todo _ Fi). rewrite T. right. auto.
+    - eapply pushed_lt; eauto.
     - exact R.
     - intros m c Hm. apply in_app_or in Hm. destruct Hm as [Hm|[Hm|[]]].
       + now apply (fi_exc _ Fi).
       + inversion Hm; subst. auto.
-    - apply (fi_ver _ Fi).
-    - intros m d Hm Hd g. destruct (fi_closed _ Fi m d Hm Hd g) as [H|[H|H]]; auto.
-      + rewrite T in H. destruct H as [<-|H]; auto.
-        right. right. exists ch. apply in_or_app. right. left. auto.
-      + right. right. now apply listed_app.
-    - intros o Ho g. destruct (fi_outs _ Fi o Ho g) as [H|[H|H]]; auto.
-      + rewrite T in H. destruct H as [<-|H]; auto.
-        right. right. exists ch. apply in_or_app. right. left. auto.
-      + right. right. now apply listed_app.
+    - intros m Hm. rewrite mem_vadd in Hm. destruct (Nat.eq_dec m n) as [E|NE].
+      + subst m. split; auto. intros _ _ _. exists ch. apply in_or_app. right. left. auto.
+      + rewrite (proj2 (Nat.eqb_neq m n) NE) in Hm. cbn [orb] in Hm.
+        destruct (fi_ver _ Fi m Hm) as [Lm Lst]. split; auto.
+        intros g FC RM. apply listed_app. auto.
   Qed.
 
-  (* ---- 'No Orig data?': only outside G *)
-  Lemma FI_skip vs n rest s' : FI vs -> fs_todo vs = n :: rest -> SJ s' -> ~ G n ->
+  (* ---- 'No Orig data?' *)
+  Lemma FI_skip vs n rest s' : FI vs -> fs_todo vs = n :: rest -> SJ s' ->
     FI {| fs_st := s'; fs_todo := rest; fs_verified := fs_verified vs; fs_report := fs_report vs;
           fs_exc := fs_exc vs; fs_raised := None |}.
   Proof.
-    intros Fi T Sj NG.
+    intros Fi T Sj.
     split; cbn [fs_st fs_todo fs_verified fs_report fs_exc fs_raised].
     - exact Sj.
     - reflexivity.
@@ -119,10 +121,6 @@ Section FLoop.
     - apply (fi_rep _ Fi).
     - apply (fi_exc _ Fi).
     - apply (fi_ver _ Fi).
-    - intros m d Hm Hd g. destruct (fi_closed _ Fi m d Hm Hd g) as [H|[H|H]]; auto.
-      rewrite T in H. destruct H as [<-|H]; [contradiction|auto].
-    - intros o Ho g. destruct (fi_outs _ Fi o Ho g) as [H|[H|H]]; auto.
-      rewrite T in H. destruct H as [<-|H]; [contradiction|auto].
   Qed.
 
   (* ---- verified.add(addr); push the precedents *)
@@ -134,32 +132,15 @@ Section FLoop.
           fs_exc := fs_exc vs; fs_raised := None |}.
   Proof.
     intros Fi T Sj R OK. pose proof (fi_todo _ Fi n ltac:(rewrite T; left; auto)) as Ln.
-    set (v := fs_verified vs). set (v' := vadd n v).
-    assert (InP: forall d, In d (push_deps W n v' rest) <->
-                           (In d (deps n) /\ mem d v' = false) \/ In d rest).
-    { intros d. rewrite push_deps_eq, in_app_iff, in_pushed. tauto. }
-    assert (Mono: forall m, mem m v = true -> mem m v' = true).
-    { intros m H. unfold v'. rewrite mem_vadd, H. apply orb_true_r. }
-    assert (Old: forall d, In d (n :: rest) -> mem d v' = true \/ In d (push_deps W n v' rest)).
-    { intros d [<-|H]; [left; apply mem_vadd_same|right; apply InP; auto]. }
     split; cbn [fs_st fs_todo fs_verified fs_report fs_exc fs_raised].
     - exact Sj.
     - reflexivity.
-    - intros m Hm. apply InP in Hm. destruct Hm as [[Hm _]|Hm].
-      + eapply deps_ltN; eauto.
-      + apply (fi_todo _ Fi). rewrite T. right. auto.
+    - eapply pushed_lt; eauto.
     - exact R.
     - apply (fi_exc _ Fi).
-    - intros m Hm. unfold v' in Hm. rewrite mem_vadd in Hm.
-      destruct (Nat.eq_dec m n) as [E|NE]; [subst m; split; auto|].
-      rewrite (proj2 (Nat.eqb_neq m n) NE) in Hm. apply (fi_ver _ Fi). exact Hm.
-    - intros m d Hm Hd g. unfold v' in Hm. rewrite mem_vadd in Hm.
-      destruct (Nat.eq_dec m n) as [E|NE].
-      + subst m. destruct (mem d v') eqn:M; auto. right. left. apply InP. auto.
-      + rewrite (proj2 (Nat.eqb_neq m n) NE) in Hm. cbn [orb] in Hm. destruct (fi_closed _ Fi m d Hm Hd g) as [H|[H|H]]; auto.
-        rewrite T in H. destruct (Old d H); auto.
-    - intros o Ho g. destruct (fi_outs _ Fi o Ho g) as [H|[H|H]]; auto.
-      rewrite T in H. destruct (Old o H); auto.
+    - intros m Hm. rewrite mem_vadd in Hm. destruct (Nat.eq_dec m n) as [E|NE].
+      + subst m. split; auto. intros g FC RM. rewrite (OK g FC) in RM. discriminate.
+      + rewrite (proj2 (Nat.eqb_neq m n) NE) in Hm. cbn [orb] in Hm. apply (fi_ver _ Fi m Hm).
   Qed.
 
   Lemma rep_set_clean r n x : ~ G n -> (forall m, m < N -> G m -> rep_get r m = None) ->
@@ -178,7 +159,7 @@ Section FLoop.
     pose proof (fi_sj _ Fi) as Sj.
     unfold vstep_f. rewrite T. cbv beta iota zeta.
     destruct (build_c_SJ W fsem fpre rorder G WF GD GS (fs_st vs) n Sj Ln)
-      as (Sj1 & Bn & _ & _ & _ & _ & Fl). cbn zeta in *.
+      as (Sj1 & Bn & _ & _ & _ & _ & _ & Fl). cbn zeta in *.
     destruct (build_c W fsem fpre rorder (fs_st vs) n) as [s1 [[e ch]|]]; cbn [fst snd] in *.
     { destruct Fl as (CO & _ & RA). apply (FI_fail vs n rest); auto. apply (fi_rep _ Fi). }
     destruct (fcell n) eqn:FC.
@@ -186,12 +167,9 @@ Section FLoop.
     pose proof (fcell_noninput W n FC) as In.
     pose proof (j_sound _ _ _ _ _ Sj1) as [K1 K2].
     destruct (py_eq (st_cache s1 n) (VStr (ftext n))) eqn:PT.
-    { apply (FI_skip vs n rest); auto. intros g.
-      destruct (is_none (st_cache s1 n)) eqn:E.
-      - apply is_none_true in E. rewrite E in PT. cbn in PT. discriminate.
-      - apply is_none_false in E. pose proof (TXG n _ Ln g FC (K2 n Ln g In E)) as X. congruence. }
+    { apply (FI_skip vs n rest); auto. }
     destruct (recalc_c_SJ W fsem fpre rorder G WF GD s1 n Sj1 Bn In)
-      as (Sj2 & B2 & _ & _ & Ag & Ch & Vl). cbn zeta in *.
+      as (Sj2 & B2 & _ & _ & Ag & Ch & Vl & _). cbn zeta in *.
     destruct (recalc_c W fsem fpre rorder s1 n) as [s2 [v|e ch]]; cbn [fst snd] in *.
     2:{ apply (FI_fail vs n rest); auto; [apply (fi_rep _ Fi)|now apply (Ch e ch)|].
         intros A. apply (Ag (ancG_semiG n A)). }
@@ -232,7 +210,6 @@ Section FLoop.
     - apply SJ_init.
     - intros n H. apply OUTS. now rewrite in_rev.
     - intros n ch [].
-    - intros o H _. right. left. now rewrite <- in_rev.
   Qed.
 
   Notation final := (validate_f W fsem fpre rorder ftext tol false outs).
@@ -253,57 +230,276 @@ Section FLoop.
   Theorem never_raised : fs_raised final = None.
   Proof. apply (fi_raised _ validate_FI). Qed.
 
-  (* reachable from o through G-nodes that evaluate from scratch *)
-  Inductive reach_ok : nat -> nat -> Prop :=
-  | reach_refl o : reach_ok o o
-  | reach_step o m d : reach_ok o m -> is_raise (F m) = false -> In d (deps m) -> reach_ok o d.
-
-  Lemma reach_lt o n : o < N -> reach_ok o n -> n < N.
+  (* a verified formula cell of G that raises from scratch is listed, one that
+     evaluates is not *)
+  Theorem verified_listed n : mem n (fs_verified final) = true -> G n -> fcell n = true ->
+    (is_raise (F n) = true -> exists ch, In (n, ch) (fs_exc final) /\ chain_ok n ch) /\
+    (is_raise (F n) = false -> ~ listed (fs_exc final) n).
   Proof.
-    intros L R. induction R as [o|o m d R IH OKm Hd]; auto.
-    apply (deps_ltN W WF m d); auto.
-  Qed.
-  Lemma reach_G o n : o < N -> G o -> reach_ok o n -> G n.
-  Proof.
-    intros L g R. induction R as [o|o m d R IH OKm Hd]; auto.
-    apply (GD m d); auto. eapply reach_lt; eauto.
-  Qed.
-
-  (* nothing reachable through cells that evaluate is skipped silently: when the
-     stack is empty, every such node is verified or listed *)
-  Theorem nothing_skipped o n : fs_todo final = [] -> In o outs -> G o -> reach_ok o n ->
-    mem n (fs_verified final) = true \/ listed (fs_exc final) n.
-  Proof.
-    intros E Ho g R. pose proof validate_FI as Fi. pose proof (OUTS o Ho) as Lo.
-    induction R as [o|o m d R IH OKm Hd].
-    - destruct (fi_outs _ Fi o Ho g) as [H|[H|H]]; auto. rewrite E in H. destruct H.
-    - specialize (IH Ho g Lo).
-      pose proof (reach_lt o m Lo R) as Lm. pose proof (reach_G o m Lo g R) as Gm.
-      assert (Vm: mem m (fs_verified final) = true).
-      { destruct IH as [H|[ch H]]; auto.
-        destruct (fi_exc _ Fi m ch H) as (_ & _ & RA). rewrite (RA (G_ancG m Lm Gm)) in OKm. discriminate. }
-      destruct (fi_closed _ Fi m d Vm Hd ltac:(eapply GD; eauto)) as [H|[H|H]]; auto.
-      rewrite E in H. destruct H.
-  Qed.
-
-  (* a reachable formula cell that raises from scratch is listed, with the chain
-     of its message; a reachable formula cell that evaluates is verified *)
-  Theorem failing_reported o n : fs_todo final = [] -> In o outs -> G o -> reach_ok o n ->
-    fcell n = true -> is_raise (F n) = true ->
-    exists ch, In (n, ch) (fs_exc final) /\ chain_ok n ch.
-  Proof.
-    intros E Ho g R FC RA. pose proof validate_FI as Fi. pose proof (OUTS o Ho) as Lo.
-    destruct (nothing_skipped o n E Ho g R) as [H|[ch H]].
-    - destruct (fi_ver _ Fi n H) as [_ OK]. rewrite (OK (reach_G o n Lo g R) FC) in RA. discriminate.
-    - exists ch. split; auto. apply (fi_exc _ Fi n ch H).
-  Qed.
-
-  Theorem evaluating_verified o n : fs_todo final = [] -> In o outs -> G o -> reach_ok o n ->
-    is_raise (F n) = false -> mem n (fs_verified final) = true.
-  Proof.
-    intros E Ho g R OK. pose proof validate_FI as Fi. pose proof (OUTS o Ho) as Lo.
-    destruct (nothing_skipped o n E Ho g R) as [H|[ch H]]; auto.
-    destruct (fi_exc _ Fi n ch H) as (_ & _ & RA).
-    rewrite (RA (G_ancG n (reach_lt o n Lo R) (reach_G o n Lo g R))) in OK. discriminate.
+    intros V g FC. pose proof validate_FI as Fi. destruct (fi_ver _ Fi n V) as [L Lst]. split.
+    - intros R. destruct (Lst g FC R) as [ch H]. exists ch. split; auto. apply (fi_exc _ Fi n ch H).
+    - intros OK [ch H]. destruct (fi_exc _ Fi n ch H) as (_ & _ & RA).
+      rewrite (RA (G_ancG n L g)) in OK. discriminate.
   Qed.
 End FLoop.
+
+(* ------------------------------------------------------------ counting *)
+Fixpoint occ (l : list nat) (n : nat) : nat :=
+  match l with [] => 0 | x :: l' => (if Nat.eqb x n then 1 else 0) + occ l' n end.
+(* the entries of the exception dictionaries that carry the address n *)
+Definition cnt (l : list entry) (n : nat) : nat := occ (map fst l) n.
+
+Lemma occ_app l1 l2 n : occ (l1 ++ l2) n = occ l1 n + occ l2 n.
+Proof. induction l1 as [|x l1 IH]; cbn [occ app]; auto. rewrite IH. lia. Qed.
+Lemma occ_rev l n : occ (rev l) n = occ l n.
+Proof. induction l as [|x l IH]; cbn [occ rev]; auto. rewrite occ_app, IH. cbn [occ]. lia. Qed.
+Lemma occ_filter (f : nat -> bool) l n : occ (filter f l) n <= occ l n.
+Proof. induction l as [|x l IH]; cbn [occ filter]; auto. destruct (f x); cbn [occ]; lia. Qed.
+
+(* ------------------------------------------------------------------------
+   Termination and reachability (repair bbbc9be): when the 'No Orig data?'
+   branch is never taken — no stored result and no value a formula computes is
+   the text of the cell's own formula, the side condition of Props/C12.v
+   C12_no_silent_skip_partial — every pop ends in  verified.add; push the
+   unverified precedents , whether the cell evaluated, mismatched or raised.
+   Nothing else is assumed: any stored results, any failing cells. *)
+Section FTerm.
+  Variable W : workbook.
+  Variable fsem : nat -> list pyval -> option pyval.
+  Variable fpre : nat -> option nat.
+  Variable rorder : (nat -> bool) -> nat -> list nat.
+  Variable ftext : nat -> list Z.
+  Variable tol : option Q.
+  Variable outs : list nat.
+
+  Notation N := (wb_n W).
+  Notation deps := (wb_deps W).
+  Notation stored := (wb_stored W).
+  Notation anc := (anc W).
+  Notation fcell := (is_fcell W).
+  Notation G0 := (fun _ : nat => False).
+  Notation SJ0 := (SJ W fsem fpre G0).
+  Notation vstep := (vstep_f W fsem fpre rorder ftext tol false).
+  Notation vloop := (vloop_f W fsem fpre rorder ftext tol false).
+  Notation TI := (TI W outs).
+  Notation mu := (mu W).
+
+  Hypothesis WF : wf W.
+  Hypothesis TXs : forall n, n < N -> fcell n = true -> py_eq (stored n) (VStr (ftext n)) = false.
+  Hypothesis TXv : forall n vals v, n < N -> fcell n = true -> fsem n vals = Some v ->
+                     py_eq v (VStr (ftext n)) = false.
+
+  Lemma GD0 : forall n d, n < N -> G0 n -> In d (deps n) -> G0 d.
+  Proof. intros n d _ []. Qed.
+  Lemma GS0 : forall m, m < N -> G0 m -> fcell m = true ->
+    stored m = VNone \/ fspec W fsem fpre (wb_inp0 W) m = FVal (stored m).
+  Proof. intros m _ []. Qed.
+
+  (* no formula cell holds the text of its own formula *)
+  Definition NT (c : cache) : Prop :=
+    forall m, m < N -> fcell m = true -> py_eq (c m) (VStr (ftext m)) = false.
+
+  Lemma NT_step c c' : NT c ->
+    (forall m, c' m = c m \/ c' m = VNone \/ c' m = stored m \/ computed fsem m (c' m)) -> NT c'.
+  Proof.
+    intros H D m L FC. destruct (D m) as [E|[E|[E|[vals E]]]].
+    - rewrite E. auto.
+    - rewrite E. reflexivity.
+    - rewrite E. auto.
+    - eapply TXv; eauto.
+  Qed.
+
+
+  (* how often n is a precedent of a node that is not verified yet *)
+  Definition pend (n : nat) (v l : list nat) : nat :=
+    fold_right (fun m a => (if mem m v then 0 else occ (deps m) n) + a) 0 l.
+  (* how often n is a precedent at all *)
+  Definition indeg (n : nat) : nat := pend n [] (seq 0 N).
+
+  Lemma pend_notin n x v l : ~ In x l -> pend n (x :: v) l = pend n v l.
+  Proof.
+    induction l as [|y l IH]; intros H; cbn [pend fold_right]; auto.
+    fold (pend n (x :: v) l). fold (pend n v l). rewrite IH by (intros I; apply H; right; auto).
+    rewrite mem_cons. destruct (Nat.eqb_spec y x) as [->|NE]; [exfalso; apply H; left; auto|].
+    reflexivity.
+  Qed.
+
+  Lemma pend_in n x v l : mem x v = false -> NoDup l -> In x l ->
+    pend n (x :: v) l + occ (deps x) n = pend n v l.
+  Proof.
+    intros M. induction l as [|y l IH]; intros ND I; [destruct I|].
+    inversion ND as [|y' l' NI ND']; subst. cbn [pend fold_right].
+    fold (pend n (x :: v) l). fold (pend n v l). rewrite mem_cons.
+    destruct (Nat.eqb_spec y x) as [->|NE].
+    - rewrite M, pend_notin by auto. cbn [orb]. lia.
+    - destruct I as [I|I]; [congruence|]. specialize (IH ND' I). cbn [orb]. lia.
+  Qed.
+
+  Record FT (vs : fstate) : Prop := {
+    ft_sj : SJ0 (fs_st vs);
+    ft_raised : fs_raised vs = None;
+    ft_ti : TI (fs_todo vs) (fs_verified vs);
+    ft_nt : NT (st_cache (fs_st vs));
+    (* every listing of n is paid for by an occurrence among the outputs or by an edge into n *)
+    ft_cnt : forall k, cnt (fs_exc vs) k + occ (fs_todo vs) k + pend k (fs_verified vs) (seq 0 N)
+                       <= occ outs k + indeg k
+  }.
+
+  Lemma vstep_FT vs n rest : FT vs -> fs_todo vs = n :: rest ->
+    FT (vstep vs) /\
+    mu (fs_todo (vstep vs)) (fs_verified (vstep vs)) < mu (fs_todo vs) (fs_verified vs).
+  Proof.
+    intros [Sj Rz Ti Nt Cn] T. rewrite T in Ti, Cn.
+    pose proof (ti_todo _ _ _ _ Ti n ltac:(left; auto)) as Ln.
+    pose proof (TI_step W outs WF n rest _ Ti) as Ti'.
+    pose proof (mu_step W outs n rest _ Ti) as Mu.
+    (* every branch but 'No Orig data?' ends in this shape *)
+    assert (Shape: forall s' r' e', SJ0 s' -> NT (st_cache s') ->
+              (e' = fs_exc vs \/ exists ch, e' = fs_exc vs ++ [(n, ch)]) ->
+              let vs' := {| fs_st := s'; fs_todo := push_deps W n (vadd n (fs_verified vs)) rest;
+                            fs_verified := vadd n (fs_verified vs); fs_report := r';
+                            fs_exc := e'; fs_raised := None |} in
+              FT vs' /\ mu (fs_todo vs') (fs_verified vs') < mu (n :: rest) (fs_verified vs)).
+    { intros s' r' e' S' N' He. cbn zeta. split; [split|]; cbn [fs_st fs_todo fs_verified fs_exc fs_raised]; auto.
+      intros k. specialize (Cn k). cbn [occ] in Cn.
+      assert (Ce: cnt e' k <= cnt (fs_exc vs) k + (if Nat.eqb n k then 1 else 0)).
+      { destruct He as [->|[ch ->]]; [destruct (Nat.eqb n k); lia|]. unfold cnt. rewrite map_app, occ_app.
+        cbn [map fst occ]. destruct (Nat.eqb n k); rewrite ?Nat.add_0_r; apply Nat.le_refl. }
+      rewrite push_deps_eq, occ_app, occ_rev.
+      destruct (mem n (fs_verified vs)) eqn:M.
+      - assert (E: vadd n (fs_verified vs) = fs_verified vs) by (unfold vadd; now rewrite M). rewrite E.
+        rewrite filter_none; [cbn [occ]; lia|].
+        intros d Hd. apply negb_false_iff.
+        destruct (ti_pos _ _ _ _ Ti [] n rest eq_refl M d Hd) as [H|[]]. exact H.
+      - assert (E: vadd n (fs_verified vs) = n :: fs_verified vs) by (unfold vadd; now rewrite M). rewrite E.
+        pose proof (occ_filter (fun d => negb (mem d (n :: fs_verified vs))) (deps n) k).
+        pose proof (pend_in k n (fs_verified vs) (seq 0 N) M (seq_NoDup N 0) ltac:(apply in_seq; lia)). lia. }
+    unfold vstep_f. rewrite T. cbv beta iota zeta.
+    destruct (build_c_SJ W fsem fpre rorder G0 WF GD0 GS0 (fs_st vs) n Sj Ln)
+      as (Sj1 & Bn & _ & _ & _ & _ & D1 & _). cbn zeta in *.
+    destruct (build_c W fsem fpre rorder (fs_st vs) n) as [s1 [[e ch]|]]; cbn [fst snd] in *.
+    { apply Shape; eauto. eapply NT_step; eauto. }
+    assert (Nt1: NT (st_cache s1)) by (eapply NT_step; eauto).
+    destruct (fcell n) eqn:FC.
+    2:{ apply Shape; auto. }
+    pose proof (fcell_noninput W n FC) as In.
+    rewrite (Nt1 n Ln FC).
+    destruct (recalc_c_SJ W fsem fpre rorder G0 WF GD0 s1 n Sj1 Bn In)
+      as (Sj2 & B2 & _ & _ & _ & _ & _ & D2). cbn zeta in *.
+    assert (W2: forall m, st_cache (fst (recalc_c W fsem fpre rorder s1 n)) m = st_cache s1 m \/
+                          st_cache (fst (recalc_c W fsem fpre rorder s1 n)) m = VNone \/
+                          st_cache (fst (recalc_c W fsem fpre rorder s1 n)) m = stored m \/
+                          computed fsem m (st_cache (fst (recalc_c W fsem fpre rorder s1 n)) m)).
+    { intros m. destruct (D2 m) as [E|[E|E]]; auto. }
+    pose proof (NT_step _ _ Nt1 W2) as Nt2.
+    destruct (recalc_c W fsem fpre rorder s1 n) as [s2 [v|e ch]]; cbn [fst snd] in *.
+    2:{ apply Shape; eauto. }
+    destruct (is_none (st_cache s1 n) || close_enough tol (st_cache s2 n) (st_cache s1 n)).
+    { apply Shape; auto. }
+    assert (Bn2: st_built s2 n = true) by (now rewrite B2).
+    destruct (recalc_c_SJ W fsem fpre rorder G0 WF GD0 s2 n Sj2 Bn2 In)
+      as (Sj3 & _ & _ & _ & _ & _ & _ & D3). cbn zeta in *.
+    assert (W3: forall m, st_cache (fst (recalc_c W fsem fpre rorder s2 n)) m = st_cache s2 m \/
+                          st_cache (fst (recalc_c W fsem fpre rorder s2 n)) m = VNone \/
+                          st_cache (fst (recalc_c W fsem fpre rorder s2 n)) m = stored m \/
+                          computed fsem m (st_cache (fst (recalc_c W fsem fpre rorder s2 n)) m)).
+    { intros m. destruct (D3 m) as [E|[E|E]]; auto. }
+    pose proof (NT_step _ _ Nt2 W3) as Nt3.
+    destruct (recalc_c W fsem fpre rorder s2 n) as [s3 [v3|e3 ch3]]; cbn [fst snd] in *;
+      apply Shape; eauto.
+  Qed.
+
+  Lemma vloop_FT : forall f vs, FT vs -> mu (fs_todo vs) (fs_verified vs) <= f ->
+    FT (vloop f vs) /\ fs_todo (vloop f vs) = [].
+  Proof.
+    induction f as [|f IH]; intros vs Ft M; cbn [vloop_f].
+    - split; auto. unfold C12.mu in M. destruct (fs_todo vs); auto. cbn in M. lia.
+    - rewrite (ft_raised _ Ft). destruct (fs_todo vs) as [|n rest] eqn:T; [split; auto|].
+      destruct (vstep_FT vs n rest Ft T) as [Ft' M']. rewrite T in M'. apply IH; auto. lia.
+  Qed.
+
+  Hypothesis OUTS : forall o, In o outs -> o < N.
+
+  Notation final := (validate_f W fsem fpre rorder ftext tol false outs).
+
+  Lemma validate_FT : FT final /\ fs_todo final = [].
+  Proof.
+    unfold validate_f, validate_f_from. apply vloop_FT.
+    - split; cbn [fs_st fs_todo fs_verified fs_raised]; auto.
+      + apply SJ_init.
+      + split; try (intros; discriminate).
+        * intros n H. apply OUTS. rewrite in_rev. exact H.
+        * intros o H. right. rewrite <- in_rev. exact H.
+      + intros m L FC. cbn [init st_cache]. rewrite (fcell_noninput W m FC). reflexivity.
+      + intros k. unfold cnt, indeg. cbn [map occ fs_exc fs_todo fs_verified]. rewrite occ_rev. apply Nat.le_refl.
+    - cbn [fs_todo fs_verified]. unfold C12.mu. rewrite rev_length, ue_nil. unfold edges. lia.
+  Qed.
+
+  (* the loop ends with an empty stack within the fuel |outs| + |edges| + 1 *)
+  Theorem terminates_f : fs_todo final = [].
+  Proof. apply validate_FT. Qed.
+
+  (* a cell is listed at most once per occurrence among the checked outputs plus
+     once per edge into it (each listing is one pop of the cell; a verified cell
+     is never pushed again, but a cell that sits on the stack several times is
+     popped — and listed — several times) *)
+  Theorem listed_bound k : cnt (fs_exc final) k <= occ outs k + indeg k.
+  Proof. destruct validate_FT as [Ft _]. pose proof (ft_cnt _ Ft k). lia. Qed.
+
+  (* every node the checked outputs depend on — below cells that raise too — has
+     been processed *)
+  Theorem reachable_verified_f o n : In o outs -> n = o \/ anc n o ->
+    mem n (fs_verified final) = true.
+  Proof.
+    destruct validate_FT as [Ft E]. pose proof (ft_ti _ Ft) as Ti. rewrite E in Ti.
+    set (v := fs_verified final) in *.
+    assert (Cl: forall a m, anc a m -> mem m v = true -> mem a v = true).
+    { intros a m A. induction A as [a m H|a b m A IH H]; intros Hm.
+      - destruct (ti_closed _ _ _ _ Ti m a Hm H) as [X|[]]. exact X.
+      - apply IH. destruct (ti_closed _ _ _ _ Ti m b Hm H) as [X|[]]. exact X. }
+    intros Ho Hn. assert (Vo: mem o v = true) by (destruct (ti_outs _ _ _ _ Ti o Ho) as [X|[]]; exact X).
+    destruct Hn as [->|A]; auto. eapply Cl; eauto.
+  Qed.
+End FTerm.
+
+(* ------------------------------------------------------------------------
+   Both together: nothing reachable is skipped silently. *)
+Section FFull.
+  Variable W : workbook.
+  Variable fsem : nat -> list pyval -> option pyval.
+  Variable fpre : nat -> option nat.
+  Variable rorder : (nat -> bool) -> nat -> list nat.
+  Variable ftext : nat -> list Z.
+  Variable tol : option Q.
+  Variable outs : list nat.
+  Variable G : nat -> Prop.
+
+  Notation N := (wb_n W).
+  Notation F := (fspec W fsem fpre (wb_inp0 W)).
+  Notation final := (validate_f W fsem fpre rorder ftext tol false outs).
+
+  Hypothesis WF : wf W.
+  Hypothesis GD : forall n d, n < N -> G n -> In d (wb_deps W n) -> G d.
+  Hypothesis GS : forall m, m < N -> G m -> is_fcell W m = true ->
+    wb_stored W m = VNone \/ F m = FVal (wb_stored W m).
+  Hypothesis SCG : forall n v, n < N -> G n -> is_fcell W n = true -> F n = FVal v -> is_scalar v = true.
+  Hypothesis TP : tol_pos tol.
+  Hypothesis TXs : forall n, n < N -> is_fcell W n = true ->
+                     py_eq (wb_stored W n) (VStr (ftext n)) = false.
+  Hypothesis TXv : forall n vals v, n < N -> is_fcell W n = true -> fsem n vals = Some v ->
+                     py_eq v (VStr (ftext n)) = false.
+  Hypothesis OUTS : forall o, In o outs -> o < N.
+
+  Theorem nothing_skipped o n : In o outs -> n = o \/ anc W n o ->
+    fs_todo final = [] /\
+    mem n (fs_verified final) = true /\
+    (G n -> is_fcell W n = true ->
+       (is_raise (F n) = true -> exists ch, In (n, ch) (fs_exc final) /\ chain_ok W fsem fpre n ch) /\
+       (is_raise (F n) = false -> ~ listed (fs_exc final) n)).
+  Proof.
+    intros Ho Hn.
+    pose proof (reachable_verified_f W fsem fpre rorder ftext tol outs WF TXs TXv OUTS o n Ho Hn) as V.
+    split; [apply (terminates_f W fsem fpre rorder ftext tol outs WF TXs TXv OUTS)|split; [exact V|]].
+    intros g FC. apply (verified_listed W fsem fpre rorder ftext tol outs G WF GD GS SCG TP OUTS n V g FC).
+  Qed.
+End FFull.
